@@ -130,7 +130,11 @@ func runC16(c *fw.Ctx) {
 	names := c16Names(c.Tier)
 	n := len(names)
 	c.Begin("pairs", map[string]int{"names": n})
-	c.Sample(map[string]any{"a": string(names[3].name), "b": fmt.Sprintf("%q", names[n/2].name)})
+	for _, k := range []int{3, n / 3, n / 2, n - 7} {
+		j := (k*7 + c.Batch*131) % n
+		r, _ := safeCompare(names[k].name, names[j].name)
+		c.Sample(map[string]any{"a": fmt.Sprintf("%q", names[k].name), "b": fmt.Sprintf("%q", names[j].name), "Compare": sign(r), "tuple_order": tupleCmp(names[k], names[j])})
+	}
 	// classes hit
 	var mu sync.Mutex
 	viol := 0
